@@ -10,7 +10,11 @@ for line in open('/verif/properties.jsonl'):
 wt = f"/tmp/wt-{pid}{rnd}"
 out = f"/tmp/seed-{pid}{rnd}"
 extra = ""
-if rnd:
+if rnd == "c":
+    extra = """
+Additional guidance for this round: two earlier rounds already produced (1) direct changes at the obvious code sites for this property and (2) changes in shared helpers / caches / first-use order / multiple inheritance / slotted and abstract classes / class-name lookup caches / source-registry handling. Do NOT repeat those. Look for something of a different kind, for example: a change that only alters a rarely inspected part of a result (a returned flag, the type of a container, object identity where equality still holds, ordering among equal elements, which exception type is raised); an off-by-one or boundary effect that needs a particular size (exactly 0, 1, 2, 10, 11 elements; very long or empty strings; depth > 5); an interaction with a configuration switch (ID_DIGEST_SIZE, RUNTIME_TYPE_CHECK, TRACE_LOGGING) or with Python-level features of the node model (fields with default_factory, keyword-only vs positional fields, properties whose values are unusual but legal such as negative numbers, empty tuples, nested tuples, enums); an effect that needs the same operation to be applied twice, or two different operations in a particular order; effects on nodes that are detached, shared between two parents, or content-identical twins. Each change must still be a plausible refactoring / optimisation / cleanup and must keep all 244 tests passing.
+"""
+elif rnd:
     extra = """
 Additional guidance for this round: earlier rounds already produced the most direct changes at the most obvious code sites for this property. Look for something different: changes in shared / helper code (code generation, typing helpers, the serialization mixin, origin / source classes, caches, module-level state, configuration handling) whose effect on this property is indirect; interactions between two features (e.g. inheritance x caching, options x error paths, shared objects x registry); order- or history-dependent effects (something that only goes wrong the second time, or after another class / pattern / tree was used first); boundary sizes and unusual but legal values. Each change must still be a plausible refactoring / optimisation / cleanup.
 """
